@@ -301,6 +301,11 @@ func checkC11(c *Ctx) {
 							cmp = append(cmp, Edge{b, i})
 						}
 					}
+					if a.Op == token.EQL && isBoolTrue(a.Y) {
+						if call, ok := a.X.(*ssa.Call); ok && calleeIs(call, "crypto/hmac", "", "Equal") {
+							cmp = append(cmp, Edge{b, i}) // hmac.Equal is ConstantTimeCompare == 1
+						}
+					}
 					if a.Op == token.EQL && isIntConst(a.Y, 0) && lenArg(a.X) != nil {
 						empty = append(empty, Edge{b, i})
 					}
